@@ -12,6 +12,7 @@ harness prints the router's public live sets; they are compared with the model:
                       = the model's *active* shapes / junctions / connectors            (DIVERGE)
 * `oe c a b`          anchors of connector c's ends = the model's attached ends          (DIVERGE)
 * `oa o n`            `Obstacle::attachedConnectors().size()` = ends attached in the model (DIVERGE)
+* `ock c n`           `ConnRef::routingCheckpoints().size()` = checkpoint vertices connector c owns in the model (DIVERGE)
 * the observed state itself must satisfy the spec: no id twice in a list, every anchor reported by
   `oe` is a member of `m_obstacles` (a connector end naming an obstacle the router no longer holds is
   a dangling reference)                                                                  (SPECFAIL)
@@ -51,6 +52,8 @@ def parseOp (ts : Array String) : Except String (Option Op) :=
     match parseEnd ts 3 with
     | some (e, _) => .ok (some (.setEndpoint (n 1) (n 2 == 1) e))
     | none => .error "bad setEndpoint"
+  | some "setRoutingCheckpoints" =>
+    .ok (some (.setRoutingCheckpoints (n 1) ((List.range (n 2)).map (fun i => n (3 + i)))))
   | some "deleteShape" => .ok (some (.deleteShape (n 1)))
   | some "deleteJunction" => .ok (some (.deleteJunction (n 1)))
   | some "deleteConn" => .ok (some (.deleteConn (n 1)))
@@ -88,6 +91,7 @@ def opName : Op → String
   | .newPin .. => "newPin" | .deleteShape _ => "deleteShape" | .deleteJunction _ => "deleteJunction"
   | .deleteConn _ => "deleteConn" | .deletePin _ => "deletePin" | .moveShape _ => "moveShape"
   | .moveJunction _ => "moveJunction" | .setEndpoint .. => "setEndpoint"
+  | .setRoutingCheckpoints .. => "setRoutingCheckpoints"
   | .processTransaction => "processTransaction" | .setTransactionUse _ => "setTransactionUse"
   | .deleteRouter => "deleteRouter" | .rDelConn _ => "rDelConn" | .rDelJunction _ => "rDelJunction"
   | .rNewJunction .. => "rNewJunction" | .rNewConn _ => "rNewConn"
@@ -172,6 +176,13 @@ def checkCaseRouter (c : Case) : CaseResult :=
           if anchorOf mc.src != ia || anchorOf mc.dst != ib then
             a.fail (.diverge s!"after op #{a.nops}: connector {cid} anchors ({ia},{ib}), model ({anchorOf mc.src},{anchorOf mc.dst})")
           else a
+    else if key == "ock" then
+      let cid := nat! (rest[0]?.getD "0")
+      let n := nat! (rest[1]?.getD "0")
+      let m := (a.s.cpsOf cid).length
+      if m != n then
+        a.fail (.diverge s!"after op #{a.nops}: connector {cid} reports {n} routing checkpoints, model owns {m} checkpoint vertices")
+      else a
     else if key == "oa" then
       if !a.routerMade.isEmpty then a else
       let o := nat! (rest[0]?.getD "0")
